@@ -75,6 +75,34 @@ class ExecFailure(Exception):
     """Unique exception object of one executor call."""
 
 
+# ... of the classes a caller in between might be tempted to catch and translate
+class ExecAttributeFailure(ExecFailure, AttributeError):
+    pass
+
+
+class ExecIndexFailure(ExecFailure, IndexError):
+    pass
+
+
+class ExecValueFailure(ExecFailure, ValueError):
+    pass
+
+
+class ExecKeyFailure(ExecFailure, KeyError):
+    pass
+
+
+class ExecTypeFailure(ExecFailure, TypeError):
+    pass
+
+
+class ExecStopFailure(ExecFailure, StopIteration if False else RuntimeError):
+    pass
+
+
+EXEC_FAILURES = [ExecFailure, ExecAttributeFailure, ExecIndexFailure, ExecValueFailure, ExecKeyFailure, ExecTypeFailure, ExecStopFailure]
+
+
 def build_model():
     """Typed model with defaults (in nested lambdas: the in-place fix-up path) and callbacks adding MetaData."""
     from func_adl import ObjectStream, func_adl_callback
@@ -117,10 +145,19 @@ POOL = {
             ("lambda e: e.Jets()", "Jets"), ("lambda e: e.met()", "num"), ("lambda e: e.Jets().Select(lambda j: j.pt(shift=2))", "nums"),
             ("lambda e: e.Jets(calib=False).Where(lambda j: j.pt(2.0) > 30).Select(lambda j: j.trks().Select(lambda t: t.charge()))", "other"),
             ("lambda e: (e.met(), e.Jets().Count())", "other"), ("lambda e: {'m': e.met(), 'j': e.Jets()}", "other"), ("lambda e: e", "Event"),
+            ("lambda e: {'n': 1, 'm': e.met()}", "rec"), ("lambda e: {'n': e.Jets().Count(), 'm': e.met()}", "rec"),
             ("lambda e: e.Tracks().Select(lambda t: t.pt())", "nums"), ("lambda e: e.Jets().First().pt()", "num"),
         ],
         "Where": [("lambda e: e.met() > 10", None), ("lambda e: e.Jets().Count() > 1 and e.met() < 100", None), ("lambda e: e.Jets().Where(lambda j: j.pt() > 1).Count() == 2", None)],
         "SelectMany": [("lambda e: e.Jets()", "Jet"), ("lambda e: e.Tracks()", "Trk"), ("lambda e: e.Jets('x').Select(lambda j: j.pt())", "num")],
+    },
+    # a stream of records (its item type is a class made for the dictionary): children that hand the record itself on in one branch
+    # of a conditional whose other branch is a record with the same fields of other number types
+    "rec": {
+        "Select": [("lambda d: d if d.n > 0 else {'n': 1.5, 'm': 2}", "other"), ("lambda d: {'m': 1, 'n': 2.5} if d.m > 1 else d", "other"), ("lambda d: d.n", "num"), ("lambda d: d.m * 2", "num"),
+                   ("lambda d: d", "rec")],
+        "Where": [("lambda d: d.n > 0", None), ("lambda d: d.m > 1.5 and d.n < 3", None)],
+        "SelectMany": [],
     },
     "Jet": {
         "Select": [("lambda j: j.pt()", "num"), ("lambda j: j.pt(shift=1) * 2", "num"), ("lambda j: j.trks()", "Trks"), ("lambda j: (j.eta(), j.pt(1.5))", "other"),
@@ -228,7 +265,7 @@ class History:
                 dump_after = astx.dump_fields(a)
                 if self.fail_next:
                     self.fail_next = False
-                    exc = ExecFailure(f"failure#{n}")
+                    exc = EXEC_FAILURES[n % len(EXEC_FAILURES)](f"failure#{n}")
                     with hist.lock:
                         hist.log.append({"ev": "leave", "n": n, "ds": self.name, "exc": exc, "dump_after": dump_after})
                     raise exc
@@ -430,8 +467,24 @@ class ImmutabilityMonitor:
         self.snap = {}
         self.reported = set()
 
+    @staticmethod
+    def type_desc(t, depth=0):
+        """what an item type IS beyond its identity and printed form: for a record class, its fields and their types"""
+        import dataclasses
+        import typing
+
+        if depth < 4 and isinstance(t, type) and dataclasses.is_dataclass(t):
+            try:
+                hints = typing.get_type_hints(t)
+            except Exception:
+                hints = {}
+            return (t.__name__, tuple(sorted((k, ImmutabilityMonitor.type_desc(v, depth + 1)) for k, v in hints.items())),
+                    tuple(sorted((k, repr(v)) for k, v in getattr(t, "__annotations__", {}).items())),
+                    tuple(sorted((k, repr(f.type)) for k, f in getattr(t, "__dataclass_fields__", {}).items())))
+        return repr(t)
+
     def on_stream(self, hist, e):
-        self.snap[e.id] = (astx.dump_fields(e.s.query_ast), e.s.item_type, qmeta_map(e.s.query_ast), e)
+        self.snap[e.id] = (astx.dump_fields(e.s.query_ast), (e.s.item_type, self.type_desc(e.s.item_type)), qmeta_map(e.s.query_ast), e)
 
     def on_event(self, hist, kind, info):
         if self.rate < 1.0 and hist.rnd.random() > self.rate:
@@ -445,7 +498,7 @@ class ImmutabilityMonitor:
             what = None
             if now != dump:
                 what = "query_ast"
-            elif e.s.item_type is not ity and e.s.item_type != ity:
+            elif (e.s.item_type is not ity[0] and e.s.item_type != ity[0]) or self.type_desc(e.s.item_type) != ity[1]:
                 what = "item_type"
             elif qmeta_map(e.s.query_ast) != qm:
                 what = "query-metadata"
